@@ -490,6 +490,11 @@ func connopsStep(op string, cfg connopsCfg, n *Node, act *vClient, publish func(
 	case "sub":
 		act.subscribe(ch)
 	case "unsub":
+		// was the unsubscribe command issued while the subscribe was still in flight (it then
+		// parks on the wait gate) or after the commit? (read without locking: one thread runs)
+		if cc, ok := act.c.channels[ch]; ok && !channelHasFlag(cc.flags, flagSubscribed) {
+			vConnopsUnsubInFlight = true
+		}
 		act.unsubscribe(ch)
 	case "nsub":
 		opts := []SubscribeOption{WithEmitPresence(cfg.presence), WithEmitJoinLeave(cfg.joinLeave), WithPushJoinLeave(true)}
@@ -571,6 +576,11 @@ func connopsCtx(cfg connopsCfg) string {
 		class = "close"
 	case unsubRacer:
 		class = "unsubscribe"
+		if path == "client-side" && vConnopsUnsubInFlight {
+			// the client unsubscribe was issued while its subscribe was still in flight: it waits
+			// on the subscribe's gate and must only be released once the join is out
+			class = "unsubscribe-while-subscribe-in-flight"
+		}
 	}
 	return path + ":" + class
 }
@@ -596,12 +606,19 @@ func vHubSub(n *Node, ch, uid string) (subInfo, bool) {
 }
 
 // harness-level flag: handlers behave synchronously during the quiet setup phase
+var vConnopsUnsubInFlight bool
+
 var vQuietFlag = true
 
 func vschedQuiet() bool     { return vQuietFlag }
 func vschedSetQuiet(q bool) { vQuietFlag = q }
 
-func init() { vsched.OnReset(func() { vQuietFlag = true }) }
+func init() {
+	vsched.OnReset(func() {
+		vQuietFlag = true
+		vConnopsUnsubInFlight = false
+	})
+}
 
 var _ = sort.Strings
 var _ = protocol.Command{}
